@@ -154,6 +154,13 @@ rule e5 { strings: $e = /ab.{1,3}ef/ $f = { 65 66 } condition: $e and $f }'''
     # (iterator notebook of the VM); a single failing page allocation must end the scan with an error, never corrupt the heap
     sc.append(("scan_many_matches", "scan", 'rule mm { strings: $a = "abcd" condition: #a > 30000 }', ["datarep=%s*32768" % b"abcd".hex()]))
     sc.append(("rscan_many_matches", "rscan", 'rule mm { strings: $a = "abcd" $b = /ab.d/ condition: #a > 30000 and #b > 30000 }', ["datarep=%s*32768" % b"abcd".hex()]))
+    # CHAINED strings (hex jump above the chaining threshold) with thousands of confirmed chains: the data of a confirmed chain is
+    # copied into the matches notebook too, so page allocations also come from the chain-confirmation code; several
+    # max_match_data values move the page boundaries across the different notebook allocations of one occurrence
+    CH = 'rule ch { strings: $a = { 41 42 43 44 [300-400] 45 46 47 48 } $b = "EFGH" condition: #a > 100 and #b > 100 }'
+    unit = (b"ABCD" + b"." * 350 + b"EFGH" + b"," * 42).hex()
+    for mmd in (0, 24, 512, 1000):
+        sc.append(("scan_chained_mmd%d" % mmd, "scan" if mmd != 24 else "rscan", CH, ["datarep=%s*3000" % unit, "mmd=%d" % mmd]))
     sc.append(("scan_many_iterators", "rscan", 'rule mi { condition: for all i in (1..1300) : ( for any j in (1..2) : ( j == 1 ) ) }', []))
     for m, txt in MODRULES.items():
         sc.append(("scan_mod_" + m, "scan" if m in ("pe", "math", "hash") else "rscan", txt, [files[m]] if m in files else []))
